@@ -20,6 +20,26 @@ class CollectionFlow(Engine):
         self.sites: Dict[str, set] = {}
         self.outcomes: List[dict] = []
 
+    # -- symbolic readers: built by the real MosReader.__init__ from a stub message, so that the way a reader stores
+    #    its fields and its restore recipe is the code's own business
+    def getattr_(self, o, name, st, node):
+        if isinstance(o, Ref) and o.kind == 'obj':
+            e = st.get(o.sym)
+            if e.get('%stub') is not None:
+                v = e.get('%' + name)
+                return [(v if v is not None else Unknown(f'attribute {name} of a message stub'), st)]
+        return super().getattr_(o, name, st, node)
+
+    def make_reader(self, st: State, *, message_id, ro_id, mos_type, restore_args):
+        stub = st.new(ObjE(self.prog.cls('MosFile').qualname, tuple(sorted({'%stub': Const(True), '%message_id': message_id, '%ro_id': ro_id,
+                                                                               '%__class__': mos_type}.items()))))
+        outs = self.instantiate(ClsV(self.prog.cls('MosReader').qualname), [Ref('obj', stub)],
+                                {'restore_fn': ExtV('symbolic-restore'), 'restore_args': restore_args}, st, None)
+        good = [(v, s) for v, s in outs if not isinstance(v, Raise)]
+        if len(good) != 1 or len(outs) != 1:
+            raise AnalysisError('MosReader(<message>, restore_fn=..., restore_args=...) could not be interpreted to a single reader object')
+        return good[0]
+
     # -- symbolic messages
     def opaque_ext(self, name, args, kwargs, st: State, node):
         if name == 'symbolic-restore':
@@ -123,10 +143,10 @@ class CollectionFlow(Engine):
         ro = None
         for v, s in make_object(self, prog.cls('RunningOrder'), root, st):
             ro, st = v, s
-        reader_cls = prog.cls('MosReader')
-        rsym = st.new(ObjE(reader_cls.qualname, tuple(sorted({'_message_id': NumV(), '_ro_id': StrV(('ro id',)), '_mos_type': Unknown('class'),
-                                                               '_restore_fn': ExtV('symbolic-restore'), '_restore_args': TupleV((StrV(('source',)),))}.items()))))
-        lst = st.new(ListE('accum', 0, None, items=(Ref('obj', rsym),), owned=((rsym,),), stages=('READERS',)))
+        mark = st.serial
+        rd, st = self.make_reader(st, message_id=NumV(), ro_id=StrV(('ro id',)), mos_type=Unknown('class'), restore_args=TupleV((StrV(('source',)),)))
+        rsym = rd.sym
+        lst = st.new(ListE('accum', 0, None, items=(rd,), owned=(self.reachable(rd, st, mark),), stages=('READERS',)))
         st.mon['readers_sym'] = lst
         coll_cls = prog.cls('MosCollection')
         csym = st.new(ObjE(coll_cls.qualname, tuple(sorted({'_mos_readers': Ref('list', lst), '_ro': ro}.items()))))
